@@ -162,6 +162,10 @@ func (rfp MaskedTransformProtocol) Transform(ct *rlwe.Ciphertext, transform *Mas
 		return fmt.Errorf("cannot Transform: crs level and s2e level must be the same")
 	}
 
+	// The refreshed ciphertext carries the metadata of the input (scale, dimensions, flags): the receiver used to
+	// keep whatever it had, and its previous scale was used to re-encode the mask below.
+	*ciphertextOut.MetaData = *ct.MetaData
+
 	rfp.e2s.GetShare(nil, share.EncToShareShare, ct, &multiparty.AdditiveShare{Value: rfp.tmpMask}) // tmpMask RingT(m - sum M_i)
 	mask := rfp.tmpMask
 	if transform != nil {
